@@ -100,8 +100,14 @@ def uniqueE (key : Fn) (xs : List V) : Except Err (List V) := do
   let ks ← xs.mapM key
   if ks.all V.hashable then return uniqueAux [] (xs.zip ks) else throw "TypeError"
 
+/-- `iter(x)` or `TypeError` -/
+def iterE (x : V) : Except Err (List V) :=
+  match x.asIter with
+  | some l => .ok l
+  | none => .error "TypeError"
+
 def flattenE (xs : List V) : Except Err (List V) := do
-  let ys ← xs.mapM (fun x => match x.asIter with | some l => .ok l | none => .error "TypeError")
+  let ys ← xs.mapM iterE
   return ys.flatten
 
 /-- `Iter(subspec, sentinel=…)` itself: apply `subspec`, drop `SKIP`s, end at `STOP` / the sentinel -/
